@@ -55,6 +55,7 @@ type FuncContract struct {
 	Requires []*Clause
 	Ensures  []*Clause
 	Defines  []*Clause // definitional postconditions: assumed at call sites, introduce a spec predicate as the post-image of the function
+	PanicUnless []*Clause // the callee panics unless this holds: an obligation in nopanic callers, an assumption afterwards (execution continues only then)
 	Inits    []*Clause // assumed at entry when verifying this function only: the local ghost history starts empty
 	Returns  []*Clause // obligations at every return site, over the source variables in scope there
 	Modifies []*CExpr
@@ -340,7 +341,7 @@ func (c *Contracts) LoadFile(path string) error {
 			c.Funcs[fc.Key] = fc
 			c.FuncOrd = append(c.FuncOrd, fc.Key)
 			cur = fc
-		case "requires", "ensures", "returns", "returns?", "defines", "init":
+		case "requires", "ensures", "returns", "returns?", "defines", "init", "panics-unless":
 			if cur == nil {
 				c.errf(path, ln, "%s outside a function contract", word)
 				continue
@@ -365,6 +366,8 @@ func (c *Contracts) LoadFile(path string) error {
 				cur.Defines = append(cur.Defines, cl)
 			case "init":
 				cur.Inits = append(cur.Inits, cl)
+			case "panics-unless":
+				cur.PanicUnless = append(cur.PanicUnless, cl)
 			default:
 				cl.Kind = "returns"
 				cl.InScope = word == "returns?"
